@@ -25,7 +25,7 @@ def submit_argv(ctx, mod, cname, deps):
     hooks = {"gwf.backends.utils.call": fake_call, "builtins.open": lambda *a, **k: Obj("file"), "attr:write": lambda recv, *a: None}
     interp = PureInterp(ctx, hooks=hooks)
     self_obj = Obj("ops", working_dir=PROJ, log_mode="full", accounting_enabled=True, **{"__class__": ci})
-    ret = interp.call(fn, (make_target({}), list(deps)), {}, self_obj=self_obj)
+    ret = interp.call(fn, (make_target(ctx, {}), list(deps)), {}, self_obj=self_obj)
     return fn, calls, ret
 
 
@@ -143,7 +143,7 @@ def run(ctx):
                 r4.ok(inst["construct"], inst["detail"], inst["where"])
     r5 = ctx.rule("R5", "composition: every not-complete prerequisite is handed over (C02.R2) and its state is the scheduler's live view (C08.R3)", min_instances=4)
     from .shared import import_rules
-    import_rules(ctx, r5, "C02", only={"R2"})
+    import_rules(ctx, r5, "C02", only={"R2", "R1b"})
     import_rules(ctx, r5, "C08", only={"R3"})
 
 
